@@ -13,7 +13,7 @@ for ID in $SEEDS; do
   for i in 01 02 03 04 05 06 07 08 09 10 11 12 13 14 15 16 17 18 19 20; do
     ./check C$i quick > $SCR/out 2>&1; rc=$?
     if [ $rc -ne 0 ]; then
-      if grep -q "no-failing-input-found" $SCR/out; then row="$row C$i(n)"; else row="$row C$i"; fi
+      if grep "^VIOLATION" $SCR/out | grep -qv "no-failing-input-found"; then row="$row C$i"; else row="$row C$i(n)"; fi
     fi
   done
   git -C /repo checkout -- .
